@@ -73,6 +73,56 @@ def gen_events(rng, n_events, malformed):
     return ev
 
 
+def gen_cycles(rng):
+    """several stash -> unstash cycles on one actor, with the process-wide context pool rotated ("R") while
+    messages are parked and between cycles; the stash is emptied all at once, one by one (also down to empty and
+    beyond: Unstash on the empty stash), or mixed, and is used again afterwards"""
+    ev = []
+    nid = 1
+    def arrive(n=1):
+        nonlocal nid
+        for _ in range(n):
+            ev.append({"e": "A", "m": nid})
+            nid += 1
+    for cyc in range(rng.choice([2, 2, 3, 4])):
+        if rng.random() < 0.25:          # Unstash on an EMPTY stash first
+            arrive()
+            ev.append({"e": "D", "d": rng.choice([["U"], ["U", "U"], ["A", "U"]])})
+        k = rng.choice([1, 1, 2, 3, 5])
+        arrive(k)
+        ev += [{"e": "D", "d": ["S"]} for _ in range(k)]
+        if rng.random() < 0.7:
+            ev.append({"e": "R"})
+        arrive()                          # the message whose handler starts unstashing
+        mode = rng.choice(["all", "chain", "inhandler", "mixed", "over"])
+        if mode == "all":
+            ev.append({"e": "D", "d": ["A"]})
+            ev += [{"e": "D", "d": []} for _ in range(k)]
+        elif mode == "chain":             # every re-delivered message unstashes the next one, until empty
+            ev += [{"e": "D", "d": ["U"]} for _ in range(k + 1)]
+        elif mode == "inhandler":         # one handler unstashes them one by one
+            ev.append({"e": "D", "d": ["U"] * k})
+            ev += [{"e": "D", "d": []} for _ in range(k)]
+        elif mode == "mixed":
+            ev.append({"e": "D", "d": ["U", "A"]})
+            ev += [{"e": "D", "d": []} for _ in range(k)]
+        else:                             # one more Unstash than there are messages
+            ev.append({"e": "D", "d": ["U"] * (k + 1)})
+            ev += [{"e": "D", "d": []} for _ in range(k)]
+        ev.append({"e": "D", "d": []})
+        if rng.random() < 0.4:
+            ev.append({"e": "R"})
+    # a last cycle, then flush
+    arrive(2)
+    ev += [{"e": "D", "d": ["S"]}, {"e": "D", "d": ["S"]}]
+    if rng.random() < 0.5:
+        ev.append({"e": "R"})
+    arrive()
+    ev.append({"e": "D", "d": ["A"]})
+    ev += [{"e": "D", "d": []} for _ in range(4)]
+    return ev
+
+
 def gen_cases(ctx):
     rng = ctx.rng
     cases = []
@@ -84,6 +134,8 @@ def gen_cases(ctx):
         buf = rng.random() > 0.12
         n = rng.choice([3, 6, 10, 16, 24, 40])
         cases.append({"buf": buf, "events": gen_events(rng, n, malformed), "origin": "malformed" if malformed else ("structured" if buf else "nobuffer")})
+    for i in range(300 if ctx.thorough else 45):
+        cases.append({"buf": True, "events": gen_cycles(rng), "origin": "cycles"})
     # long history: a deep stash unstashed one by one and all at once
     for depth in ([150] if not ctx.thorough else [150, 1500]):
         ev = [{"e": "A", "m": j + 1} for j in range(depth)]
@@ -100,14 +152,19 @@ def gen_cases(ctx):
 # ----------------------------------------------------------------------------- property oracle
 def oracle(case, out):
     """independent of the Coq model: bookkeeping of message identities only"""
-    if out.get("lost"):
-        return ("stash:lost", "a message that was unstashed (or sent) was never delivered: the actor stayed idle although the harness was owed a delivery", {})
     box = []          # identities stashed and not yet unstashed (stash order)
     unstashed = []    # identities moved out of the stash, in order
     deliveries = []   # identities in delivery order
     arrived = [e["m"] for e in case["events"] if e["e"] == "A"]
     steps = [s for s in out["steps"] if not s.get("noop")] + out["extra"]
-    for n, s in enumerate(steps):
+    n = -1
+    for s in steps:
+        if s.get("rot"):
+            if s.get("size", 0) != len(box):
+                return ("stash:size", "after the context pool was rotated (other actors exchanged %s messages) StashSize()=%d although %d messages %s are stashed and not unstashed" %
+                        ("2 x pool capacity", s.get("size", 0), len(box), box[:10]), {"parked": list(box)})
+            continue
+        n += 1
         deliveries.append(s["id"])
         if not s["same"]:
             return ("stash:different-message", "delivery %d of identity %d: the context does not carry the message object that was sent together with its sender" % (n, s["id"]), {"delivery": n})
@@ -135,6 +192,25 @@ def oracle(case, out):
                 box = []
             if r["after"] != len(box):
                 return ("stash:size", "after %s in delivery %d StashSize()=%d, %d messages are stashed and not unstashed" % (ACT[a], n, r["after"], len(box)), {"delivery": n})
+    if out.get("hung"):
+        ev = out.get("hung_event", -1)
+        call = out.get("hung_call", -1)
+        where = out.get("hung_where", "")
+        if ev >= 0 and call >= 0:
+            d = case["events"][ev].get("d") or []
+            act = ACT.get(d[call], "?") if call < len(d) else "?"
+            return ("stash:call-never-returns", "%s (call %d of the delivery at event %d) did not return: %s; the actor is blocked for good and the %d stashed messages %s are never re-delivered" %
+                    (act, call, ev, where, len(box), box[:10]), {"event": ev, "call": call, "parked": list(box)})
+        counts = {}
+        for m in deliveries:
+            counts[m] = counts.get(m, 0) + 1
+        worst = max(counts.items(), key=lambda kv: kv[1]) if counts else (None, 0)
+        return ("stash:never-idle", "%s (event %d); so far message %s was delivered %d times, it arrived once and was unstashed %d times" %
+                (where, ev, worst[0], worst[1], unstashed.count(worst[0])), {"event": ev, "deliveries": deliveries[:200]})
+    if out.get("lost"):
+        owed = [m for m in arrived if deliveries.count(m) < 1 + unstashed.count(m)]
+        return ("stash:lost", "the actor stayed idle although a delivery was owed at event %d: messages %s were sent/unstashed more often than delivered (stashed message never re-delivered)" %
+                (out.get("hung_event", -1), owed[:10]), {"owed": owed, "deliveries": deliveries, "unstashed": unstashed})
     # exactly once: every identity is delivered once for its arrival and once per time it left the stash
     seen = {}
     redelivered = []
@@ -165,9 +241,11 @@ RES = {"": "ROk", "nobuf": "RNoBuffer"}
 def coq_cases(cases, outs):
     items = []
     for c, o in zip(cases, outs):
-        ev = "[" + "; ".join(("Arrive %d" % e["m"]) if e["e"] == "A" else ("Deliver [%s]" % "; ".join(ACT[a] for a in (e.get("d") or []))) for e in c["events"]) + "]"
+        ev = "[" + "; ".join(("Arrive %d" % e["m"]) if e["e"] == "A" else ("Deliver [%s]" % "; ".join(ACT[a] for a in (e.get("d") or []))) for e in c["events"] if e["e"] != "R") + "]"
         steps = []
         for s in o["steps"]:
+            if s.get("rot"):
+                continue          # the pool rotation is not an event of the model (it must not change anything)
             if s.get("noop"):
                 steps.append("None")
             else:
@@ -238,7 +316,11 @@ def run(ctx):
     outs = [by_id.get(c["id"]) for c in cases] if outs else []
 
     n_bad = 0
+    n_skipped = 0
     for c, o in zip(cases, outs):
+        if o is not None and o.get("skipped"):
+            n_skipped += 1
+            continue
         if o is None or o.get("err"):
             ctx.tie_broken("go-harness case did not complete", {"case": c, "err": (o or {}).get("err")})
             continue
@@ -247,13 +329,17 @@ def run(ctx):
             n_bad += 1
             if n_bad <= 3:
                 sig, text, detail = v
-                hist = " ".join(("A%d" % e["m"]) if e["e"] == "A" else ("D[%s]" % ",".join(e.get("d") or [])) for e in c["events"][:40])
+                hist = " ".join(("A%d" % e["m"]) if e["e"] == "A" else "R" if e["e"] == "R" else ("D[%s]" % ",".join(e.get("d") or [])) for e in c["events"][:40])
                 ctx.violation(sig, "history %s%s (stash buffer: %s): %s" % (hist, " ..." if len(c["events"]) > 40 else "", c["buf"], text),
-                              {"driver": "go/inpkg/actor/zz_verif_C13_test.go TestVerifC13Stash", "legend": "A<n>: message n sent; D[calls]: next delivery makes the calls S=Stash U=Unstash A=UnstashAll",
+                              {"driver": "go/inpkg/actor/zz_verif_C13_test.go TestVerifC13Stash", "legend": "A<n>: message n sent; D[calls]: next delivery makes the calls S=Stash U=Unstash A=UnstashAll; R: 2 x contextPoolSize messages go through another actor (rotates the shared ReceiveContext pool)",
                                "case": c, "observed": o, "detail": detail})
 
     mism = None
-    good = [(c, o) for c, o in zip(cases, outs) if o is not None and not o.get("err") and not o.get("lost")]
+    good = [(c, o) for c, o in zip(cases, outs) if o is not None and not o.get("err") and not o.get("lost") and not o.get("hung") and not o.get("skipped")]
+    if n_skipped:
+        ctx.notes.append("%d cases were not run because two earlier cases hung and were abandoned (their blocked handlers hold dispatcher workers)" % n_skipped)
+        if not any(f.kind == "violation" for f in ctx.findings):
+            ctx.tie_broken("go-harness cases skipped without a reported hang", {"skipped": n_skipped})
     ok_m, out_m = ctx.coq_build(["theories/C13/Model.vo"])
     if not ok_m:
         ctx.tie_broken("C13/Model.v does not compile", out_m)
@@ -284,7 +370,7 @@ def run(ctx):
     deliveries = 0
     max_stash = 0
     for c, o in good:
-        steps = [s for s in o["steps"] if not s.get("noop")] + o["extra"]
+        steps = [s for s in o["steps"] if not s.get("noop") and not s.get("rot")] + o["extra"]
         deliveries += len(steps)
         n_un = 0
         for s in steps:
@@ -303,9 +389,10 @@ def run(ctx):
         "distinct_nontrivial": len(nontriv),
         "rule": "a case = one fresh real actor + a history of arrivals and gated deliveries, each delivery making 0..4 Stash/Unstash/UnstashAll calls; non-trivial = stash buffer present, at least two calls that moved messages out of the stash and at least one message delivered more than once; distinct by history",
         "call_histogram": hist, "result_histogram": errs, "max_stash_size": max_stash,
-        "origins": {k: sum(1 for c, _ in good if c["origin"] == k) for k in ("corpus", "structured", "malformed", "nobuffer", "long")},
+        "origins": {k: sum(1 for c, _ in good if c["origin"] == k) for k in ("corpus", "structured", "malformed", "nobuffer", "cycles", "long")},
+        "pool_rotations": sum(1 for c, _ in good for e in c["events"] if e["e"] == "R"),
         "model_vs_implementation_mismatches": mism,
-        "samples": [{"buf": c["buf"], "events": c["events"][:10], "deliveries": [s["id"] for s in o["steps"] if not s.get("noop")][:10]} for c, o in good[:2] + good[30:32]],
+        "samples": [{"buf": c["buf"], "events": c["events"][:10], "deliveries": [s["id"] for s in o["steps"] if not s.get("noop") and not s.get("rot")][:10]} for c, o in good[:2] + good[30:32]],
         "theorems": ["C13_stash_is_fifo", "C13_redelivered_exactly_once", "C13_all_come_back", "C13_delivery_count", "C13_fresh_messages_unaffected",
                      "C13_unstash_oldest", "C13_unstashAll_in_stash_order", "C13_stash_appends", "C13_no_buffer_reports_error"],
     })
